@@ -32,7 +32,7 @@ def build_cases(ctx):
     rng = ctx.rng('deep')
     nrand = 5000 if quick else 60000
     for _ in range(nrand):
-        n = rng.randint(3, 8)
+        n = rng.randint(9, 40) if rng.random() < 0.03 else rng.randint(3, 8)
         stmts = [gendoc.Stmt(rng.choice(kinds), 10 + i) for i in range(n)]
         positions = [j for j in range(n) if rng.random() < 0.45]
         if not positions:
